@@ -267,6 +267,8 @@ func run(c *hlib.Ctx) {
 		c.Stat("c01.bitmap", 1)
 	}
 	runGenerators(c)
+	runRectSets(c)
+	runC2F(c)
 }
 
 // soup3 sends a real mesh (exact float coordinates, interned vertex ids) to the proved deciders.
